@@ -34,7 +34,7 @@ def plan(tier, seed):
 
 def thresholds(tier):
   t = {"exhaustive_sets_complete": 12, "cycles_judged": 30000, "random_cycles": 10000, "fairness_windows": 2000,
-       "resets_checked": 50, "hold_cycles_checked": 1000, "embedded_arbiters": 8, "twin_arbiter_comparisons": 500, "gated_designs": 8, "gated_arbiter_comparisons": 5000}
+       "resets_checked": 50, "hold_cycles_checked": 1000, "embedded_arbiters": 8, "twin_arbiter_comparisons": 500, "gated_designs": 8, "gated_arbiter_comparisons": 5000, "parent_register_checks": 5000}
   if tier == "thorough":
     t.update({"exhaustive_sets_complete": 16, "cycles_judged": 400000, "random_cycles": 300000})
   return t
@@ -64,7 +64,7 @@ def ref_step(n, ptr, reqs, en, has_en):
 
 # --- driving the real thing -----------------------------------------------
 
-def emb_source(clsname, n, has_en, twin=False):
+def emb_source(clsname, n, has_en, twin=False, nstat=0):
   """the arbiter inside a parent whose ONE update block drives the request bits one by one AND reads the grant bits: a cycle
   at block granularity (parent block -> arbiter blocks -> parent block) without any combinational loop at signal level"""
   L = ["from pymtl3 import *", f"from pymtl3.stdlib.basic_rtl.arbiters import {clsname}", "class Emb(Component):", "  def construct(s):",
@@ -80,16 +80,21 @@ def emb_source(clsname, n, has_en, twin=False):
     for i in range(n): L.append(f"      s.arb2.reqs[{i}] @= s.reqs[{i}]")
     for i in range(n): L.append(f"      s.grants2[{i}] @= s.arb2.grants[{i}]")
     if has_en: L.append("      s.arb2.en @= s.en")
+  for j in range(nstat):
+    # the parent keeps registers of its own beside the arbiter (grant statistics), each written by its own update_ff block
+    if j == 0: L.insert(6, f"    s.cnt = [Wire(8) for _ in range({nstat})]")
+    L += ["    @update_ff", f"    def ff_cnt{j}():", f"      if s.reset: s.cnt[{j}] <<= 0",
+          f"      else: s.cnt[{j}] <<= s.cnt[{j}] + zext(s.arb.grants[{j % n}], 8)"]
   return "\n".join(L) + "\n"
 
 
-def mk(clsname, n, pg, embedded=False, twin=False):
+def mk(clsname, n, pg, embedded=False, twin=False, nstat=0):
   from pymtl3 import DefaultPassGroup
   from pymtl3.passes.mamba.PassGroups import Mamba2020
   from pymtl3.stdlib.basic_rtl import arbiters
   if embedded:
     from vlib import specgen as G
-    a = G.load_source(emb_source(clsname, n, clsname.endswith("En"), twin), "c19emb").Emb()
+    a = G.load_source(emb_source(clsname, n, clsname.endswith("En"), twin, nstat), "c19emb").Emb()
   else:
     a = getattr(arbiters, clsname)(n)
   a.elaborate()
@@ -186,7 +191,9 @@ def run_rand(sh):
   has_en = clsname.endswith("En")
   rng = sh.rng("rand", clsname, n)
   emb = bool(sh.params.get("embedded"))
-  a = mk(clsname, n, rng.choice(["default", "mamba"]), embedded=emb, twin=emb and n % 2 == 1)
+  nstat = (n % 4 if n % 4 else 4) if emb else 0          # n = 2, 3, 4, 5 -> 2, 3, 4, 1 registers of the parent's own
+  a = mk(clsname, n, rng.choice(["default", "mamba"]), embedded=emb, twin=emb and n % 2 == 1, nstat=nstat)
+  exp_cnt = [0] * nstat
   tag = clsname + ("(embedded)" if emb else "")
   if emb: sh.count("embedded_arbiters")
   ptr = 0
@@ -204,7 +211,7 @@ def run_rand(sh):
       persistent = rng.randrange(n)
     left -= 1
     if mode == "reset":
-      a.sim_reset(); ptr = 0; wait = [0] * n; left = 0
+      a.sim_reset(); ptr = 0; wait = [0] * n; left = 0; exp_cnt = [0] * nstat
       sh.count("resets_checked")
       if int(getattr(a, 'arb', a).priority_reg.out) != 1:
         sh.violation("reset-does-not-restore-priority-0", {"cls": tag, "nreqs": n, "got": bin(int(getattr(a, 'arb', a).priority_reg.out)), "after_cycles": c})
@@ -219,6 +226,12 @@ def run_rand(sh):
     eg, _, adv = ref_step(n, ptr, reqs, en, has_en)
     ptr = cycle(sh, a, n, has_en, ptr, reqs, en, tag, tick_only=tick_only)
     sh.count("random_cycles")
+    for j in range(nstat):
+      exp_cnt[j] = (exp_cnt[j] + ((eg >> (j % n)) & 1)) & 255
+      sh.count("parent_register_checks")
+      if int(a.cnt[j]) != exp_cnt[j]:
+        sh.violation("register-of-the-arbiters-parent-differs-from-grant-count", {"cls": tag, "nreqs": n, "register": f"cnt[{j}]", "got": int(a.cnt[j]),
+                     "expected": exp_cnt[j], "cycle": c, "parent_registers": nstat}); exp_cnt[j] = int(a.cnt[j])
     # bounded-wait fairness from the *observed* grants
     g, adv = sh.last    # observed grants / observed pointer movement
     for i in range(n):
